@@ -541,6 +541,10 @@ def _limit_inputs():
         xs.append((f"open{k}", "SELECT " + "(" * k + "1\n"))
     for k in (5, 50, 500):
         xs.append((f"in{k}", "SELECT a FROM t WHERE a IN (" + ", ".join(str(i) for i in range(k)) + ")\n"))
+    # far beyond Python's own recursion limit: whatever walks the brackets must be stopped by max_parse_depth, not by the interpreter
+    xs.append(("paren1200", "SELECT " + "(" * 1200 + "1" + ")" * 1200 + "\n"))
+    xs.append(("open1200", "SELECT " + "(" * 1200 + "1\n"))
+    xs.append(("in_nested1200", "SELECT a FROM t WHERE x IN " + "(" * 1200 + "1" + ")" * 1200 + "\n"))
     xs.append(("cols200", "SELECT " + ", ".join(f"c{i}" for i in range(200)) + " FROM t\n"))
     xs.append(("close1", "SELECT 1)\n"))
     xs.append(("union40", "\nUNION ALL\n".join(f"SELECT {i} AS a" for i in range(40)) + "\n"))
@@ -602,7 +606,13 @@ def _limit_task(task):
     t0 = time.time()
     try:
         with _deadline(_CALL_LIMIT_S):
-            cfg = FluffConfig(overrides={"dialect": dialect, "max_parse_depth": depth, "max_parse_nodes": nodes})
+            if depth is None:
+                # the shipped defaults (no override at all): what a user gets
+                cfg = FluffConfig(overrides={"dialect": dialect})
+                depth, nodes = int(cfg.get("max_parse_depth")), int(cfg.get("max_parse_nodes"))
+                rec["depth"], rec["nodes"], rec["shipped_defaults"] = depth, nodes, True
+            else:
+                cfg = FluffConfig(overrides={"dialect": dialect, "max_parse_depth": depth, "max_parse_nodes": nodes})
             if api == "lint_string":
                 lf = Linter(config=cfg).lint_string(sql, fix=True)
                 vs = [(v.rule_code(), v.desc()) for v in lf.get_violations(filter_ignore=False, filter_warning=False)]
@@ -710,6 +720,10 @@ def limits_return_violations(tier="quick", seed=0):
             controls.append((lab, sql, "ansi", 0, 0, "parse_string"))
     if tier != "thorough":
         controls = [c for c in controls if c[0] in ("paren60", "case60", "ordinary5", "in500")]
+    for lab, sql in inputs:
+        if lab.endswith("1200"):
+            for api in (("lint_string", "api_fix", "parse_string") if tier == "thorough" or lab == "paren1200" else ("lint_string",)):
+                controls.append((lab, sql, "ansi", None, None, api))
     t0 = time.time()
     with _pool() as pool:
         futs = [pool.submit(_limit_task, t) for t in controls + tasks]      # the long-running controls first
@@ -717,7 +731,7 @@ def limits_return_violations(tier="quick", seed=0):
     failed, samples, by = [], [], {}
     nontrivial = set()
     for rec in recs:
-        is_control = (rec["depth"], rec["nodes"]) in ((600, 100000), (0, 0))
+        is_control = (rec["depth"], rec["nodes"]) in ((600, 100000), (0, 0)) or rec.get("shipped_defaults")
         if rec["hits"] or (rec["nodes"] and any(k > rec["nodes"] for k in rec["ntokens"][:1])):
             nontrivial.add((rec["label"], rec["dialect"], rec["depth"], rec["nodes"], rec["api"]))
         for which, detail in _limit_verdicts(rec):
